@@ -256,10 +256,13 @@ TEXT["C25"] = {
 
 TEXT["C06"] = {
     "level": "Theorems C06_gateway_refuted / C06_client_refuted: the faithful models violate the property (store keyed by message ID "
-             "only); the witnesses are replayed on the real gateway (corpus) and client on every run and reported as known findings. A "
+             "only); the witnesses are replayed on the real gateway (corpus) and client on every run and reported as known findings. "
+             "Theorem C06_gateway_only_interference_fails: in EVERY gateway history the only exchanges whose acknowledgement is not "
+             "relayed are those during whose life an exchange of the other direction used the same message ID (invariant tying the "
+             "monitor's book of exchanges to the store, the timers and the exchange states). A "
              "monitor that tracks the exchanges of both directions by direction AND message ID, independently of the gateway's store, "
              "runs on every implementation trace: a lost acknowledgement outside the recorded interference class is a violation.",
-    "note": GW_NOTE + " Partial: no positive theorem is proved (exchanges with disjoint live message IDs are covered by the correspondence only); the schedule part of the quantifier is outside the event-atomic models.",
+    "note": GW_NOTE + " Partial: the positive theorem covers the gateway (for the client library only the refutation and the monitor); the schedule part of the quantifier is outside the event-atomic models.",
     "technique": "Coq refutation theorems with replayed witnesses + direction-aware exchange monitor on the implementation traces + differential execution",
 }
 
@@ -341,8 +344,11 @@ TEXT["C16"] = {
     "level": "Theorems C16_*: (safety, proved) while the budget lasts the gateway's retry timer writes exactly the stored REGISTER / "
              "PUBLISH / PUBREL with DUP set (same message ID, topic, payload) and re-arms RetryDelay later; after RetryCount "
              "unanswered retransmissions it writes nothing and removes the exchange; the client answers every PUBREL, also for a "
-             "finished exchange, with one PUBCOMP. (Liveness, NOT proved) delivery and acknowledgement within the retry budget is "
-             "checked by the end-to-end monitor on the real client + real gateway joined by a lossy link, against the composed model.",
-    "note": COMMON_NOTE + " Partial: only the safety clauses are theorems; the liveness clause over all loss patterns is tested (generated fault lists within and beyond the budget), not proved.",
+             "finished exchange, with one PUBCOMP; every acknowledgement step of a broker-publish exchange is relayed. (Liveness) "
+             "C16_qos1_delivered_within_the_retry_budget: in the composed system a broker QoS 1 message on a subscribed short topic "
+             "is delivered and acknowledged to the broker under ANY pattern of lost PUBLISHes / PUBACKs of at most RetryCount rounds "
+             "(exact traces; the bound is sharp). QoS 2, the REGISTER step and duplication are checked by the end-to-end monitor on "
+             "the real client + real gateway joined by a lossy link, against the composed model.",
+    "note": COMMON_NOTE + " Partial: liveness is proved for QoS 1 on short topics under loss; QoS 2 / REGISTER / duplication patterns are tested (generated fault lists within and beyond the budget), not proved.",
     "technique": "Coq step lemmas on the retry timer (gateway) and PUBREL handling (client) + end-to-end differential execution over a lossy link with a liveness monitor",
 }
